@@ -118,6 +118,12 @@ def gen_source(rng):
         d["xyz_scale"] = rng.choice([1.0, 1.0, 0.5, 6371.0])
     if spec["ctor"] == "esmf_mem":
         d["esmf_float"] = rng.random() < 0.5
+    if spec["ctor"] in ("topology", "open_grid_dict"):
+        d["conn_order"] = rng.choice(["C", "C", "F"])
+    if spec["ctor"] in ("ugrid_mem", "open_grid_ds", "ugrid_file"):
+        d.update(ugrid_edges=rng.random() < 0.45, edge_flip=rng.random() < 0.6, std_fill=rng.random() < 0.4, as_coords=rng.random() < 0.3)
+        if d["std_fill"]:
+            d["start"], d["dtype"] = 0, "int64"
     spec["dialect"] = d
     return spec
 
@@ -242,7 +248,7 @@ class Alias(Profile):
             r = rng.random()
             if r < 0.2 and len(parties) < 3:
                 h = f"c{len(parties) - 1}"
-                ops.append({"op": "copy", "src": rng.choice(parties), "as": h, "via": rng.choice(["grid", "grid", "uxda", "uxda_data"])})
+                ops.append({"op": "copy", "src": rng.choice(parties), "as": h, "via": rng.choice(["grid", "grid", "grid", "uxda", "uxda_data", "uxda_deepcopy"])})
                 parties.append(h)
             elif r < 0.55:
                 ops.append(dict(self.gen_mutator(rng), op="mutate", on=rng.choice(parties)))
@@ -410,6 +416,11 @@ class Alias(Profile):
                 da = ux.UxDataArray(np.arange(g.n_face, dtype=float), dims=["n_face"], uxgrid=g, name="v")
                 if op["via"] == "uxda_data":
                     c = da.copy(deep=True, data=np.zeros(g.n_face)).uxgrid
+                elif op["via"] == "uxda_deepcopy":
+                    # the standard-library route into UxDataArray._copy (memo passed along)
+                    import copy as _copy
+
+                    c = _copy.deepcopy({"held": [da]})["held"][0].uxgrid
                 else:
                     c = da.copy(deep=True).uxgrid
         except Exception as e:
